@@ -22,7 +22,9 @@ def renderSnap (d : Dir) : String := joinWith "," (sortBy strLt (snapLines [] d)
 
 def probeScopes : List (String × Scope) :=
   [("A", .all), ("B", .build), ("L", .launch), ("P:776562", .process (strBytes "web")),
-   ("P:776f726b6572", .process (strBytes "worker"))]
+   ("P:776f726b6572", .process (strBytes "worker")),
+   -- process types named like the phases: no implicit layer paths, no build/launch entries for them either
+   ("P:6275696c64", .process (strBytes "build")), ("P:6c61756e6368", .process (strBytes "launch"))]
 
 def probeEnvs (names : List Bytes) : List Env := [[], (dedup names).map (fun n => (n, [48]))]
 
